@@ -124,6 +124,12 @@ ASSUMPTIONS = [
 WATCHDOG = {"quick": 1200, "thorough": 3 * 3600}
 
 
+def setup(ctx):
+    from bcv import core
+
+    core.codon_storm(ctx)
+
+
 def selftest():
     from bcv.core import HarnessError
 
